@@ -122,6 +122,82 @@ pub fn c08_sized(seed: u64) -> impl Fn(usize) -> Op { use crate::tdcheck::{simpl
 pub fn c02_sized(seed: u64) -> impl Fn(usize) -> Op { move |n| { let t = text_of(&crate::c01::valid_indices(seed, 12, 0x51D1, None), " "); let pass: String = explore::filler_bytes(seed, 0x51D2 + n as u64, n).iter().map(|b| (b'!' + b % 90) as char).collect(); let want = bip39::seed(&t, &pass);
     op(format!("seed with a passphrase of {n} ASCII characters"), move || match Mnemonic::from_phrase(&t).map(|m| *m.seed(&pass)) { Err(e) => Err(format!("valid phrase rejected: {e}")), Ok(s) if s[..] == want[..] => Ok("seed"), Ok(s) => Err(format!("seed {} instead of {}", explore::hex(&s[..8]), explore::hex(&want[..8]))) }) } }
 
+/// Values that CROSS A THREAD BOUNDARY: built on one thread, used on another (moved into a spawned thread, or shared through an
+/// `Arc` and used from two threads one after the other). No interleaving is involved - the hand-over is sequential - so this
+/// is plain enumeration: whatever a value keeps outside itself (a per-thread pad, a per-thread table it indexes into) is
+/// wrong on the other thread every time. Every case also runs on a single thread as its own control.
+pub fn cross_thread(ctx: &Ctx, p: &str, name: &str, entry: &str, cases: Vec<(String, Box<dyn Fn(&str) -> Outcome + Send + Sync>)>) {
+    let modes = ["same-thread", "moved-to-another-thread", "shared-and-used-on-two-threads"]; let cases = Arc::new(cases); let n = cases.len() as u64;
+    ctx.sweep(name, &format!("{n} values x {{built and used on one thread (control), built on one thread and moved to another, built on one thread and used through an Arc from two other threads in turn}}: every result is the reference result"), n * 3, |i| {
+        let c = (i / 3) as usize; let mode = modes[(i % 3) as usize]; let cs = cases.clone();
+        let got = std::thread::Builder::new().stack_size(16 << 20).spawn(move || guard(|| (cs[c].1)(mode))).expect("spawn").join().unwrap_or_else(|_| Err("thread died".into()));
+        let replay = json!({"sweep": name, "index": i, "entry": entry, "value": cases[c].0, "mode": mode});
+        ctx.sample(name, || replay.clone());
+        match got {
+            Err(pn) => { ctx.eval(format!("cross-thread:{mode}:panic")); ctx.panic_violation(format!("{p}:cross-thread:{mode}:panic@{}", panic_site(&pn)), format!("{} ({mode}) panics: {pn}", cases[c].0), replay) }
+            Ok(Err(m)) => { ctx.eval(format!("cross-thread:{mode}:differs")); ctx.violation(format!("{p}:cross-thread:{mode}:differs-from-reference"), format!("{} ({mode}): {m}", cases[c].0), replay) }
+            Ok(Ok(k)) => ctx.eval(format!("cross-thread:{mode}:{k}")),
+        }
+    });
+}
+/// runs `make` and `check` according to the mode of `cross_thread`
+pub fn hand_over<T: Send + Sync + 'static>(mode: &str, make: impl FnOnce() -> Result<T, String> + Send + 'static, check: impl Fn(&T) -> Outcome + Send + Sync + 'static) -> Outcome {
+    match mode {
+        "same-thread" => { let v = make()?; check(&v) }
+        "moved-to-another-thread" => { let v = std::thread::spawn(make).join().map_err(|_| "the building thread died".to_string())??; std::thread::Builder::new().stack_size(16 << 20).spawn(move || check(&v)).expect("spawn").join().map_err(|_| "the using thread panicked".to_string())? }
+        _ => { let v = Arc::new(std::thread::spawn(make).join().map_err(|_| "the building thread died".to_string())??); let check = Arc::new(check); let mut last: Outcome = Ok("ok");
+            for _ in 0..2 { let (v2, c2) = (v.clone(), check.clone()); last = std::thread::Builder::new().stack_size(16 << 20).spawn(move || c2(&v2)).expect("spawn").join().map_err(|_| "a using thread panicked".to_string())?; if last.is_err() { break; } } last }
+    }
+}
+pub fn key_cases(seed: u64) -> Vec<(String, Box<dyn Fn(&str) -> Outcome + Send + Sync>)> {
+    let n = secp::n(); let mut ks: Vec<(String, U256)> = vec![("1".into(), U256::ONE), ("2".into(), U256::ONE.adc(&U256::ONE).0), ("n-1".into(), n.sbb(&U256::ONE).0), ("ganache#0".into(), U256::from_hex("4f3edf983ac636a65a842ce7c78d9aa706d3b113bce9c46f30d7d21715b23b1d"))];
+    for r in 0..4u64 { ks.push((format!("filler#{r}"), U256::from_be(&explore::filler_bytes(seed, 0xC7055 + r, 32).try_into().unwrap()))); }
+    let mut v: Vec<(String, Box<dyn Fn(&str) -> Outcome + Send + Sync>)> = Vec::new();
+    for (l, k) in ks { if k.is_zero() || k >= n { continue; }
+        v.push((format!("PrivateKey of secret {l}: secret, public key, address, signature"), Box::new(move |mode: &str| { let curve = Curve::new(); let pt = curve.mul_g(&k).unwrap(); let want_pub = curve.uncompressed(&pt).to_vec(); let want_addr = eth::eip55(&eth::address_of_point(&pt)); let d = [0x5au8; 32]; let (r, s2, odd, _) = curve.sign_rfc6979(&k, &d); let want_sig = eth::sig_text(&r, &s2, odd);
+            hand_over(mode, move || PrivateKey::new(k.to_be()).map_err(|e| format!("valid secret refused: {e}")), move |key: &PrivateKey| {
+                if key.secret() != k.to_be() { return Err(format!("secret() returns {}", explore::hex(&key.secret()))); }
+                if key.public().encode_uncompressed().to_vec() != want_pub { return Err("public key differs from secret x G".into()); }
+                if key.address().to_string() != want_addr { return Err(format!("address {} instead of {want_addr}", key.address())); }
+                let sig = key.sign(ethdigest::Digest(d)).to_string(); if sig != want_sig { return Err(format!("signature {sig} instead of {want_sig}")); }
+                Ok("key") }) }))); }
+    // a mnemonic parsed on one thread, its seed and the derived account on another
+    for (l, t, pass) in [("12 words", text_of(&crate::c01::valid_indices(seed, 12, 0xC7056, None), " "), ""), ("24 words, passphrase", text_of(&crate::c01::valid_indices(seed, 24, 0xC7057, None), " "), "TREZOR")] {
+        v.push((format!("Mnemonic of {l}: phrase, seed, first account"), Box::new(move |mode: &str| { let curve = Curve::new(); let want_seed = bip39::seed(&t, pass); let want_key = bip32::derive(&curve, &want_seed, &[44 | HARD, 60 | HARD, HARD, 0, 0]).map(|x| x.k.to_be()); let (t1, t2) = (t.clone(), t.clone());
+            hand_over(mode, move || Mnemonic::from_phrase(&t1).map_err(|e| format!("valid phrase refused: {e}")), move |m: &Mnemonic| {
+                if m.to_phrase() != t2 { return Err(format!("to_phrase gives '{}'", m.to_phrase())); }
+                let sd = *m.seed(pass); if sd[..] != want_seed[..] { return Err("seed differs from PBKDF2-HMAC-SHA512".into()); }
+                let path: hdk::Path = "m/44'/60'/0'/0/0".parse().map_err(|e| format!("path refused: {e}"))?; let k = hdk::derive(sd, &path).map(|k| k.secret()).ok(); if k != want_key { return Err("derived key differs from BIP-32".into()); }
+                Ok("mnemonic") }) }))); }
+    v
+}
+
+/// DETERMINISTIC operations under every answer of the entropy source. None of parse / seed / derive / key / sign / encode /
+/// hash needs randomness; an implementation that draws some anyway (blinding, masking, hash-map seeds of its own) must give
+/// the same results whatever the source answers - all zeros, all ones, a counter - and when the source FAILS it gives the
+/// same result or an ordinary error, never another value. The source is owned by the harness (scripted per thread).
+pub fn under_entropy_answers(ctx: &Ctx, p: &str, name: &str, entry: &str, ops: Vec<Op>) {
+    let modes: [(&str, Vec<u8>, Option<usize>); 5] = [("zeros", vec![0], None), ("ones", vec![0xff], None), ("counter", (1..=251u8).collect(), None), ("fails-always", vec![7], Some(0)), ("fails-from-the-second-request", vec![7], Some(1))];
+    let ops = Arc::new(ops); let n = ops.len() as u64;
+    ctx.sweep(name, &format!("{n} deterministic operations x 5 answers of the entropy source (all zeros, all ones, a counter, failing always, failing from the second request on), each on one fresh thread, run twice: the reference result both times - or, when the source fails, an ordinary error"), n * 5, |i| {
+        let k = (i / 5) as usize; let (mn, pattern, fail_at) = modes[(i % 5) as usize].clone(); let ops2 = ops.clone();
+        let (got, requests, _) = crate::entropy::with_script_on_fresh_thread(pattern, fail_at, false, move || (0..2).map(|_| guard(|| (ops2[k].check)())).collect::<Vec<_>>());
+        let replay = json!({"sweep": name, "index": i, "entry": entry, "operation": ops[k].label, "entropy_source": mn, "requests_made": requests.len()});
+        ctx.sample(name, || replay.clone());
+        let failing = fail_at.is_some(); let delivered = requests.iter().any(|r| !r.1);
+        for (round, r) in got.iter().enumerate() {
+            match r {
+                Err(pn) => { ctx.eval(format!("entropy={mn}:panic")); ctx.panic_violation(format!("{p}:under-entropy:{mn}:panic@{}", panic_site(pn)), format!("{} panics with the entropy source answering [{mn}]: {pn}", ops[k].label), replay); return; }
+                Ok(Err(m)) => {
+                    // with a failing source an ordinary error is fine; "another value" is not (the operations' messages say `instead of` / `differs` for those)
+                    if failing && delivered && !(m.contains("instead of") || m.contains("differs") || m.contains("must be refused")) { ctx.eval(format!("entropy={mn}:error-after-a-delivered-failure")); return; }
+                    ctx.eval(format!("entropy={mn}:differs")); ctx.violation(format!("{p}:under-entropy:{mn}:differs-from-reference"), format!("{} (run {}) with the entropy source answering [{mn}] ({} requests made): {m}", ops[k].label, round + 1, requests.len()), replay); return; }
+                Ok(Ok(_)) => {}
+            }
+        }
+        ctx.eval(format!("entropy={mn}:agrees,requests={}", requests.len().min(1)));
+    });
+}
 fn phrases(seed: u64) -> (Vec<usize>, Vec<usize>, Vec<usize>) {
     let a = crate::c01::valid_indices(seed, 12, 900, None);
     let mut a2 = a.clone(); a2[11] = bip39::complete_last(&a[..11], a[11] ^ 0x400); // same first 11 words, another valid last word
